@@ -1237,6 +1237,51 @@ func pinInputsCoveredRule(r *Report, p *Prog, rule string) {
 			}
 		}
 	}
+	// clause 2: what is recorded as "the extras this pin was expanded with" is the
+	// very value that was handed to the expansion: the same field of the same
+	// criterion variable, not the criterion re-read after the candidate's own
+	// requirements have been merged into the state
+	baseOf := func(v ssa.Value) ssa.Value {
+		for d := 0; d < 4 && v != nil; d++ {
+			switch x := v.(type) {
+			case *ssa.Field:
+				return x.X
+			case *ssa.FieldAddr:
+				return x.X
+			case *ssa.UnOp:
+				v = x.X
+			default:
+				return nil
+			}
+		}
+		return nil
+	}
+	var expandedFrom, recordedFrom ssa.Value
+	var recordPos token.Pos
+	for _, b := range pin.Blocks {
+		for _, in := range b.Instrs {
+			switch x := in.(type) {
+			case *ssa.Call:
+				if sc := x.Common().StaticCallee(); sc != nil && sc.Name() == "getCriteriaToUpdate" {
+					for _, a := range x.Common().Args {
+						if critField(a) == "extras" {
+							expandedFrom = baseOf(a)
+						}
+					}
+				}
+			case *ssa.Store:
+				if critField(x.Addr) != "" && critField(x.Addr) != "extras" && critField(x.Addr) != "candidates" && critField(x.Val) == "extras" {
+					recordedFrom = baseOf(x.Val)
+					recordPos = x.Pos()
+				}
+			}
+		}
+	}
+	if recordedFrom != nil && expandedFrom != nil && recordedFrom != expandedFrom && !sameVar(recordedFrom, expandedFrom) {
+		r.bad(rule, "resolve/pypi: the extras recorded for a pin are the ones it was expanded with", p.pos(recordPos), "attemptToPinCriterion expands the candidate with the extras of one criterion value and records the extras of another (the criterion re-read from the state after the candidate's own requirements were merged): an extra the candidate requests of its own package is marked as expanded although its requirements were never collected")
+	} else if recordedFrom != nil {
+		r.ok(rule, "resolve/pypi: the extras recorded for a pin are the ones it was expanded with", p.pos(recordPos), "same criterion value")
+	}
 	var missing []string
 	for f := range consumed {
 		if !read[f] {
